@@ -727,7 +727,7 @@ mod tests {
 /// Verification hook for C07 (add-only, compiled only with `--cfg samlang_verif`): a canonical
 /// rendering of an abstract pattern node, so that the abstract patterns the checker hands to the
 /// exhaustiveness analysis can be compared with the Lean model's. `_` wildcard, `T(..)` tuple/struct,
-/// `Name(..)` variant, `O(a|b)` or-pattern (`O()` = nothing).
+/// `Class.Name(..)` variant, `O(a|b)` or-pattern (`O()` = nothing).
 #[cfg(samlang_verif)]
 pub(super) mod verif_hooks {
   use super::{AbstractPatternNode, AbstractPatternNodeInner};
@@ -740,9 +740,11 @@ pub(super) mod verif_hooks {
         match variant {
           None => format!("T({args})"),
           Some(c) => {
-            let dbg = format!("{:?}", c.variant_name);
-            let name = dbg.split('"').nth(1).unwrap_or(&dbg).to_string();
-            format!("{name}({args})")
+            let q = |p: &samlang_heap::PStr| {
+              let dbg = format!("{p:?}");
+              dbg.split('"').nth(1).unwrap_or(&dbg).to_string()
+            };
+            format!("{}.{}({args})", q(&c.class_name), q(&c.variant_name))
           }
         }
       }
